@@ -1,3 +1,4 @@
+From Coq Require Import Lia.
 From Coq Require Import List String Ascii Bool Arith ZArith.
 Import ListNotations.
 From ClasticV Require Import Base.Py Base.Strs Model.Errors Gen.ErrorsGen.
@@ -84,4 +85,68 @@ Theorem format_agrees mime : assoc_s (snd (adapt mime)) MIME_SUPPORT_MAP = Some 
 Proof.
   unfold adapt. destruct mime as [m|]; [|reflexivity].
   destruct (assoc_s m MIME_SUPPORT_MAP) eqn:E; [exact E|reflexivity].
+Qed.
+
+(* ---------------- escaping loses nothing: the browser's reading of the escaped text is the text ---------------- *)
+Fixpoint strip_prefix (p s : string) : option string :=
+  match p, s with
+  | EmptyString, _ => Some s
+  | String x p', String y s' => if Ascii.eqb x y then strip_prefix p' s' else None
+  | _, EmptyString => None
+  end.
+
+(* decoding of the five character references html.escape produces (what an HTML parser does with text content) *)
+Fixpoint unescape (fuel : nat) (s : string) : string :=
+  match fuel with
+  | O => s
+  | S k =>
+      match s with
+      | EmptyString => ""
+      | String c r =>
+          if Ascii.eqb c "&" then
+            match strip_prefix "amp;" r with Some t => String "&" (unescape k t) | None =>
+            match strip_prefix "lt;" r with Some t => String "<" (unescape k t) | None =>
+            match strip_prefix "gt;" r with Some t => String ">" (unescape k t) | None =>
+            match strip_prefix "quot;" r with Some t => String """" (unescape k t) | None =>
+            match strip_prefix "#x27;" r with Some t => String "'" (unescape k t) | None =>
+            String c (unescape k r) end end end end end
+          else String c (unescape k r)
+      end
+  end.
+
+Lemma strip_prefix_app p s : strip_prefix p (p ++ s) = Some s.
+Proof. induction p as [|c r IH]; cbn; [reflexivity|]. rewrite Ascii.eqb_refl. exact IH. Qed.
+
+Theorem unescape_escape s : forall fuel, String.length (html_escape s) <= fuel -> unescape fuel (html_escape s) = s.
+Proof.
+  induction s as [|c r IH]; intros fuel Hf.
+  - destruct fuel; reflexivity.
+  - cbn [html_escape] in *. unfold esc_chr in *.
+    destruct (Ascii.eqb c "&") eqn:E1.
+    { apply Ascii.eqb_eq in E1. subst c. destruct fuel as [|k]; [cbn in Hf; lia|].
+      change ("&amp;" ++ html_escape r) with (String "&" ("amp;" ++ html_escape r)). cbn [unescape].
+      rewrite Ascii.eqb_refl, strip_prefix_app. f_equal. apply IH. cbn in Hf. lia. }
+    destruct (Ascii.eqb c "<") eqn:E2.
+    { apply Ascii.eqb_eq in E2. subst c. destruct fuel as [|k]; [cbn in Hf; lia|].
+      change ("&lt;" ++ html_escape r) with (String "&" ("lt;" ++ html_escape r)). cbn [unescape].
+      rewrite Ascii.eqb_refl. cbn [strip_prefix append Ascii.eqb Bool.eqb].
+      f_equal. apply IH. cbn in Hf. lia. }
+    destruct (Ascii.eqb c ">") eqn:E3.
+    { apply Ascii.eqb_eq in E3. subst c. destruct fuel as [|k]; [cbn in Hf; lia|].
+      change ("&gt;" ++ html_escape r) with (String "&" ("gt;" ++ html_escape r)). cbn [unescape].
+      rewrite Ascii.eqb_refl. cbn [strip_prefix append Ascii.eqb Bool.eqb].
+      f_equal. apply IH. cbn in Hf. lia. }
+    destruct (Ascii.eqb c """") eqn:E4.
+    { apply Ascii.eqb_eq in E4. subst c. destruct fuel as [|k]; [cbn in Hf; lia|].
+      change ("&quot;" ++ html_escape r) with (String "&" ("quot;" ++ html_escape r)). cbn [unescape].
+      rewrite Ascii.eqb_refl. cbn [strip_prefix append Ascii.eqb Bool.eqb].
+      f_equal. apply IH. cbn in Hf. lia. }
+    destruct (Ascii.eqb c "'") eqn:E5.
+    { apply Ascii.eqb_eq in E5. subst c. destruct fuel as [|k]; [cbn in Hf; lia|].
+      change ("&#x27;" ++ html_escape r) with (String "&" ("#x27;" ++ html_escape r)). cbn [unescape].
+      rewrite Ascii.eqb_refl. cbn [strip_prefix append Ascii.eqb Bool.eqb].
+      f_equal. apply IH. cbn in Hf. lia. }
+    destruct fuel as [|k]; [cbn in Hf; lia|].
+    change (String c "" ++ html_escape r) with (String c (html_escape r)). cbn [unescape]. rewrite E1.
+    f_equal. apply IH. cbn in Hf. lia.
 Qed.
